@@ -2,17 +2,22 @@ P = dict(
     harness='c08_mockverdict.cpp',
     variants=['asan'],
     level='exploration',
-    technique='runtime monitoring: multiset/first-deviation reference model over generated mock scenarios (expectation sets x actual call sequences) run inside fixture tests with the default reporter, MockSupportPlugin and a recording reporter; '
-              'unique return values / output bytes per expectation identify the consumed expectation; ASan/UBSan build',
-    rule='cases: (1..4 functions with typed signatures incl. object / output parameter / ignoreOtherParameters / overloads, 1..6 expectations with counts 0..3, scopes, ignoreOtherCalls, strict order on/off, '
-         'actual call sequence = permutation of the expanded expectations with at most one injected deviation, or a random sequence, or the same with the parameter passing order permuted). '
+    technique='runtime monitoring: multiset/first-deviation reference model over generated mock scenarios (expectation sets x actual call sequences) run inside fixture tests with the default reporter, MockSupportPlugin and a recording reporter, as the first test of a run or after 1..3 earlier (passing / failing) tests of the same run; '
+              'unique return values / output bytes per (expectation, output parameter) identify the consumed expectation; ASan/UBSan build',
+    rule='cases: (1..4 functions with typed signatures incl. object / 0..3 output parameters (bytes 1..8, zero-sized, unmodified, typed; passed at any position of the call) / ignoreOtherParameters / overloads, 1..6 expectations with counts 0..3, scopes, ignoreOtherCalls, strict order on/off, '
+         'actual call sequence = permutation of the expanded expectations with at most one injected deviation, or a random sequence, or the same with the parameter passing order permuted; the scenario is the first test of its run or follows 1..3 earlier tests (passing, failing without mocks, failing at a mock call, failing with an unfulfilled expectation) whose own verdicts are judged too). '
          'Non-trivial = at least two open expectations on one function that differ in a parameter or object AND an actual call order different from expectation order; distinct by (expectation classes with counts, call sequence with values, flags)',
     floor=dict(quick=20000, thorough=300000),
-    counter_floor=dict(quick=dict(return_values_checked=100000, output_parameters_checked=30000, verdict_pass=20000, model_call_level_deviation=20000, model_end_of_test_failure=5000),
-                       thorough=dict(return_values_checked=500000, output_parameters_checked=100000, verdict_pass=100000, model_call_level_deviation=200000, model_end_of_test_failure=50000)),
+    counter_floor=dict(quick=dict(return_values_checked=100000, output_parameters_checked=30000, verdict_pass=20000, model_call_level_deviation=20000, model_end_of_test_failure=5000,
+                                  calls_with_two_or_more_output_parameters_checked=15000, calls_with_data_output_passed_after_unmodified_or_zero_sized_output=3000,
+                                  scenarios_after_a_failed_test_of_the_run_plugin=4000, end_of_test_failures_due_after_a_failed_test_of_the_run_plugin=400),
+                       thorough=dict(return_values_checked=500000, output_parameters_checked=100000, verdict_pass=100000, model_call_level_deviation=200000, model_end_of_test_failure=50000,
+                                     calls_with_two_or_more_output_parameters_checked=75000, calls_with_data_output_passed_after_unmodified_or_zero_sized_output=15000,
+                                     scenarios_after_a_failed_test_of_the_run_plugin=20000, end_of_test_failures_due_after_a_failed_test_of_the_run_plugin=2000)),
     assumptions=['scenarios are generated inside the unambiguous-matching precondition (a call never equals two different expectation classes); scenarios the model cannot decide are skipped and counted',
                  'an object is passed by the actual call iff the expectations of that function name one',
                  'integer parameters are passed with the declared type (cross-type integer equality is C09)',
                  'strict order is judged per mock scope (each MockSupport scope has its own order counter)',
+                 'every expectation of a function declares all output parameters of the signature; outside MockSupportPlugin the test asks for the verdict itself (checkExpectations) and the mock is cleared between the tests of a run, as a teardown would',
                  'which parameter an "unexpected parameter value" diagnosis blames is only required to be a parameter that really differs from some open expectation'],
 )
